@@ -349,6 +349,16 @@ def rule_d1(ctx: Ctx) -> None:
             raise AnalysisError(f"{fi.where}: how the direction table `{tname}` is used is not recognised")
         for k, v in zip(tb.value.keys, tb.value.values):
             judge(k.id, cells_of(v), v)
+    elif not chain and not tables:
+        # the table written where it is used:  shading.update({DIR_EAST: (cells), ...}.get(dir, ()))
+        inline = [n for n in walk_no_nested(fi.node) if isinstance(n, ast.Call) and isinstance(n.func, ast.Attribute) and n.func.attr == "update" and len(n.args) == 1
+                  and isinstance(n.args[0], ast.Call) and isinstance(n.args[0].func, ast.Attribute) and n.args[0].func.attr == "get" and isinstance(n.args[0].func.value, ast.Dict)
+                  and len(n.args[0].args) == 2 and unparse(n.args[0].args[0]) == param and unparse(n.args[0].args[1]) in ("()", "[]", "set()", "frozenset()")]
+        if len(inline) != 1 or not all(isinstance(k, ast.Name) and k.id.startswith("DIR_") for k in inline[0].args[0].func.value.keys):
+            raise AnalysisError(f"{fi.where}: direction dispatch not recognised")
+        d = inline[0].args[0].func.value
+        for k, v in zip(d.keys, d.values):
+            judge(k.id, cells_of(v), v)
     else:
         raise AnalysisError(f"{fi.where}: direction dispatch not recognised")
     if seen != set(want):
@@ -635,10 +645,29 @@ def rule_p1(ctx: Ctx) -> None:
         a, b = unparse(nest[0].target), unparse(nest[0].body[0].target)
         inner = nest[0].body[0].body
         good = len(inner) == 1 and unparse(inner[0]).endswith(f".add(({a}, {b}))") and isinstance(inner[0], ast.Expr)
+    if not good and not nest:
+        # the same product as one bulk update:  S.update((a, b) for a in XS for b in YS)  /  itertools.product(XS, YS)
+        for st in lp.body:
+            c = st.value if isinstance(st, ast.Expr) and isinstance(st.value, ast.Call) else None
+            if c is None or not (isinstance(c.func, ast.Attribute) and c.func.attr == "update" and len(c.args) == 1):
+                continue
+            g = c.args[0]
+            if isinstance(g, (ast.GeneratorExp, ast.ListComp, ast.SetComp)) and len(g.generators) == 2 and not any(x.ifs for x in g.generators) and isinstance(g.elt, ast.Tuple) and len(g.elt.elts) == 2:
+                by_list = {unparse(x.iter): unparse(x.target) for x in g.generators}
+                if set(by_list) == {lx, ly} and [unparse(e) for e in g.elt.elts] == [by_list[lx], by_list[ly]]:
+                    good = True
+            if isinstance(g, ast.Call) and call_name(g) in (("product",), ("itertools", "product")) and [unparse(x) for x in g.args] == [lx, ly] and not g.keywords:
+                good = True
     if good:
         ctx.ok("C18-P1", f.where, "every shaded cell is replaced by all combinations of its split columns and rows", lp, f)
-    else:
+    elif any(isinstance(n, ast.Call) and call_name(n) == ("zip",) and {unparse(x) for x in n.args} == {lx, ly} for n in ast.walk(lp)):
+        ctx.violation("C18-P1", f, lp, "the split columns and rows are paired up (zip), not combined: the new shading is not the full product (new columns) x (new rows) of every old shaded cell", robust=True)
+    elif len(nest) == 1 and unparse(nest[0].iter) in (lx, ly) and not any(isinstance(n, (ast.For, ast.comprehension)) for st in nest[0].body for n in ast.walk(st)):
+        ctx.violation("C18-P1", f, lp, "only one of the two split lists is iterated: the new shading is not the full product (new columns) x (new rows) of every old shaded cell")
+    elif len(nest) == 1 and len(nest[0].body) == 1 and isinstance(nest[0].body[0], ast.For) and {unparse(nest[0].iter), unparse(nest[0].body[0].iter)} <= {lx, ly}:
         ctx.violation("C18-P1", f, lp, "the new shading is not the full product (new columns) x (new rows) of every old shaded cell")
+    else:
+        raise AnalysisError(f"{f.where}: how the split columns and rows are combined into new shaded cells is not recognised")
     g = repo.need_method("MeshPatt", "_add_point_new_perm")
     gx, gy = g.params[1], g.params[2]
     rets = [st for st in g.body if isinstance(st, ast.Return)]
